@@ -974,6 +974,18 @@ func (t *Terms) purity(f *ssa.Function) int {
 			if strings.HasPrefix(n, "builtin:") {
 				return
 			}
+			// library call that only touches objects local to this function (e.g. a local strings.Builder)
+			localOnly := callee(x) != nil && len(x.Common().Args) > 0
+			for _, a := range x.Common().Args {
+				if _, isPtr := a.Type().Underlying().(*types.Pointer); isPtr {
+					if _, isLocal := rootValue(a).(*ssa.Alloc); !isLocal {
+						localOnly = false
+					}
+				}
+			}
+			if localOnly && (strings.HasPrefix(n, "(*strings.Builder).") || strings.HasPrefix(n, "(*bytes.Buffer).")) {
+				return
+			}
 			p = purImpure
 		}
 	})
